@@ -98,6 +98,26 @@ HARNESSES = [
      "stubs": [], "replay": "escape"},
 ]
 
+HARNESSES += [
+    # --- span kernels (C17) ---
+    {"name": "token::parse::verif_kani::parse_error_span_is_sliceable", "props": ["C17"], "tier": "quick",
+     "functions": ["<token::parse::ErrorEntry as LocatedError>::span"],
+     "bounds": "fragment: empty / one arbitrary char (all of char, every UTF-8 width) / that char followed by one more byte; every location; unwind 8",
+     "stubs": [], "replay": "spans"},
+    {"name": "diagnostics::verif_kani::span_union_is_the_hull", "props": ["C17"], "tier": "quick",
+     "functions": ["<Span as SpanExt>::union"],
+     "bounds": "all pairs of spans within an expression of any length (full 64-bit width)", "stubs": [],
+     "replay": "spans"},
+    {"name": "diagnostics::verif_kani::composite_span_reports_its_span", "props": ["C17"], "tier": "quick",
+     "functions": ["CompositeSpan::spanned", "CompositeSpan::correlated", "<CompositeSpan as LocatedError>::span",
+                   "CorrelatedSpan::split_some"],
+     "bounds": "all spans (full width), with and without a left correlated span", "stubs": [], "replay": "spans"},
+    {"name": "token::verif_kani::unroot_moves_span_start_by_reported_bytes", "props": ["C17", "C08"], "tier": "quick",
+     "functions": ["<Wildcard as Unroot<Span>>::unroot", "Wildcard::unroot"],
+     "bounds": "every wildcard kind x every span at least as long as the root separator (full width)", "stubs": [],
+     "replay": "spans"},
+]
+
 V = "token::variance::verif_kani::"
 RANGE_FUNCS = ["<BoundedVariantRange as Conjunction>::conjunction", "NaturalRange::by_bound_with",
                "<NaturalBound as Conjunction>::conjunction", "NaturalRange::from_closed_and_open",
